@@ -3,6 +3,7 @@ package main
 import (
 	"crypto/ed25519"
 	"fmt"
+	"strconv"
 	"strings"
 
 	biscuit "github.com/biscuit-auth/biscuit-go/v2"
@@ -459,6 +460,91 @@ func runC14(res *Result, rng *RNG, tier string, outDir string) {
 			}
 			if isModelText(text) {
 				addCase(kind, text, g.params, "PXErr")
+			}
+		}
+	}
+	// (2d) string literals with backslashes.  The lexer takes everything between two quotes; the token is then
+	// unquoted by Go's rules (strconv.Unquote: \\ \" \n \t \xHH \uHHHH octal …).  The oracle is strconv.Unquote
+	// itself, applied to the literal as written: where it fails the text must be rejected (never a panic), where it
+	// succeeds the parsed term must be exactly that string — in a fact, as a set element and as a method argument.
+	{
+		bodies := []string{`\`, `a\\b`, `\n`, `\t\r`, `\x41`, `\u00e9`, `\101`, `\'`, `C:\\dir\\`, `\U0001F600`,
+			`C:\dir\`, `\s+`, `^abc\s+def$`, `\d\d`, `a\`, `\\\`, `\x4`, `\xZZ`, `\u12`, `\777`, `\8`, `\é`, `\€x`, `a\ b`, `\` + "\t", `\` + "\n",
+			`\\\\`, `x\\`, `\a\b\f\v`, `\0`, `\00`, `\000`}
+		for i := 0; i < 24; i++ { // random mixes of backslashes, escape letters, multi-byte characters
+			r := rng.Fork()
+			alphabet := []string{`\`, `\`, `n`, `x`, `4`, `1`, `u`, `0`, `é`, `€`, `s`, ` `, `'`, `a`, `7`, `8`}
+			var sb strings.Builder
+			for k := 0; k < 1+r.Intn(7); k++ {
+				sb.WriteString(alphabet[r.Intn(len(alphabet))])
+			}
+			bodies = append(bodies, sb.String())
+		}
+		for _, body := range bodies {
+			lit := `"` + body + `"`
+			want, uerr := strconv.Unquote(lit)
+			for _, shape := range []string{"fact", "set", "method"} {
+				var text string
+				switch shape {
+				case "fact":
+					text = `right(` + lit + `, 1)`
+				case "set":
+					text = `right([` + lit + `, "z"])`
+				default:
+					text = `check if resource($r), $r.starts_with(` + lit + `)`
+				}
+				var got string
+				var gotOK bool
+				var err error
+				pan := usable(func() {
+					switch shape {
+					case "fact", "set":
+						var f biscuit.Fact
+						f, err = parser.FromStringFact(text)
+						if err == nil && len(f.Predicate.IDs) > 0 {
+							switch v := f.Predicate.IDs[0].(type) {
+							case biscuit.String:
+								got, gotOK = string(v), true
+							case biscuit.Set:
+								for _, e := range v {
+									if sv, ok := e.(biscuit.String); ok && string(sv) != "z" {
+										got, gotOK = string(sv), true
+									}
+								}
+								if !gotOK && want == "z" {
+									got, gotOK = "z", true
+								}
+							}
+						}
+					default:
+						var c biscuit.Check
+						c, err = parser.FromStringCheck(text)
+						if err == nil && len(c.Queries) == 1 && len(c.Queries[0].Expressions) == 1 {
+							for _, op := range c.Queries[0].Expressions[0] {
+								if v, ok := op.(biscuit.Value); ok {
+									if sv, ok := v.Term.(biscuit.String); ok {
+										got, gotOK = string(sv), true
+									}
+								}
+							}
+						}
+					}
+				})
+				res.Count("escape "+text, true)
+				res.Dist("string-escapes:" + shape)
+				rep := map[string]interface{}{"text": text, "literal": lit, "go_unquote_error": fmt.Sprint(uerr)}
+				switch {
+				case pan != "":
+					res.Violate("panic:parse", "parsing a string literal with backslashes panicked: "+pan, rep)
+				case uerr != nil && err == nil:
+					res.Violate("error-not-reported:malformed-string-escape", "a string literal that Go's unquoting rules reject parses without error", rep)
+				case uerr == nil && err != nil:
+					res.Violate("valid-text-rejected:string-escape", "a string literal with valid escapes is rejected: "+err.Error(), rep)
+				case uerr == nil && (!gotOK || got != want):
+					rep["want"] = fmt.Sprintf("%q", want)
+					rep["got"] = fmt.Sprintf("%q", got)
+					res.Violate("wrong-value:string-escape", "a string literal with escapes denotes another string than the one written", rep)
+				}
 			}
 		}
 	}
